@@ -277,3 +277,11 @@ package internal_planner
 //@   flag checks=-index,-assert
 //@   requires p.Duration > 0
 //@   at WrapProcess one-bucket-per-range-duration: streamLen == (ctx.To.UnixNano() - ctx.From.UnixNano()) / p.Duration
+
+// A stage that collects the entries it lets through hands the collected slice on and
+// gives it up: what was sent belongs to the receiver, the next batch is collected in
+// new storage (keeping the backing array would overwrite entries the downstream
+// stage still holds - the result would depend on batching and scheduling).
+//@ func (*LabelFilterPlanner).Process$2 [C09]
+//@   flag checks=-index,-assert
+//@   check handed-over-buffer-is-given-up: isnil(_entries)
